@@ -833,7 +833,7 @@ func privateHelpersOf(p *core.Prog, root *ssa.Function, depth int) map[*ssa.Func
 					continue
 				}
 				private := true
-				for _, e := range p.Callers(g) {
+				for _, e := range p.RealCallers(g) {
 					if cf := e.Caller.Func; cf != root && !out[cf] && cf != f {
 						private = false
 					}
